@@ -466,7 +466,8 @@ def qnwunif(n, a, b):
     """
     n, a, b = list(map(np.asarray, [n, a, b]))
     nodes, weights = qnwlege(n, a, b)
-    weights = weights / np.prod(b - a)
+    # Volume of the box: scalar endpoints are repeated in every dimension
+    weights = weights / np.prod(np.broadcast_to(b - a, n.shape))
     return nodes, weights
 
 
